@@ -1,1 +1,2 @@
 pub mod refdec;
+pub mod fgen;
